@@ -99,6 +99,9 @@ def invPassM (m : Nat) : List Nat → List Nat → Bool
 theorem zp_ntt_is_the_breadth_first_loop_nest (d : Nat) (a : List Nat) (ha : a.length = 2 ^ d) :
     Zp.ntt d a = FftFlt.nttBF Zp.zpOps Zp.T d a := Zp.ntt_eq_BF d a ha
 
+theorem zp_intt_is_the_breadth_first_loop_nest (d : Nat) (a : List Nat) (ha : a.length = 2 ^ d) :
+    Zp.inttRec d 1 a = FftFlt.inttBF Zp.zpOps Zp.TI d a := Zp.inttRec_eq_BF d a ha
+
 /-- **a second reduction is the identity, for the reductions as modelled** (the floating-point quotient computation
     included, bit for bit what the Rust code does): if `babai_reduce_bigint` returns Ok with (F', G'), reducing (F', G')
     again returns Ok with the same pair -/
